@@ -374,7 +374,7 @@ func runC01(c *Ctx) {
 	for i, p := range loadCorpus(c, "C01", CheckOpts{AllowExtPartial: true}) {
 		addCase(p, fmt.Sprintf("corpus:%d", i))
 	}
-	n := c.Pick(240, 12000)
+	n := c.Pick(300, 12000)
 	if v := os.Getenv("VH_N"); v != "" {
 		fmt.Sscan(v, &n)
 	}
